@@ -15,7 +15,7 @@ import core
 import builders as B
 
 LEVEL = "proof"
-THEOREMS = ["C01_summary_safe", "C01_builder_frame", "C01_history_frame", "C01_nonvacuous"]
+THEOREMS = ["C01_summary_safe", "C01_continuations_safe", "C01_builder_frame", "C01_history_frame", "C01_nonvacuous"]
 
 
 def systematic():
@@ -76,6 +76,30 @@ def systematic():
                 leaks.append(dict(where, what="ancestor changed by a call on its descendant", step="c = a.%s(args2)" % name))
             if b is not None and B.observe(b) != snap_b:
                 leaks.append(dict(where, what="sibling changed by a call on the other branch", step="c = a.%s(args2)" % name))
+    # independence of continuations: what r.m(x) is does not depend on which sibling continuations of r were made before it
+    for cls, name in B.discover():
+        for ri, rf in enumerate(B.receivers(cls, name) or []):
+            for k in range(3):
+                try:
+                    r0 = rf()
+                    a0 = B.args_for(cls, name, r0, k)
+                    if a0 is None:
+                        break
+                    alone = B.observe(a0[0](r0))
+                except Exception:
+                    continue
+                for j in range(3):
+                    try:
+                        r = rf()
+                        B.args_for(cls, name, r, j)[0](r)          # an earlier sibling
+                        later = B.observe(B.args_for(cls, name, r, k)[0](r))
+                    except Exception:
+                        continue
+                    n += 1
+                    if later != alone:
+                        leaks.append({"class": cls.__name__, "method": name, "receiver": ri,
+                                      "what": "a continuation depends on a sibling continuation made before it",
+                                      "step": "r.%s(args%d); b = r.%s(args%d)  vs  b alone" % (name, j, name, k)})
     # every public method that can be called without arguments must leave its receiver alone as well
     # (a derivation method such as negate() that stops being a @builder is found here)
     import inspect
